@@ -15,10 +15,13 @@ theorem linearize_acc {fl : Flavour} {cfg : Cfg} {h : History} {q : Bool} {sf : 
     (hl : linearize fl cfg h q = some sf) :
     ∃ pf, Acc fl sf pf (offered h) (received h) (handedBack h) (accepted h) ∧
       (q = true → Quiescent (sem fl cfg) sf pf) := by
-  unfold linearize at hl
-  have hs : LinCore.search (sem fl cfg) q h.fuel {} (init fl) [] h = (some sf, (LinCore.search (sem fl cfg) q h.fuel {} (init fl) [] h).2) := by
-    rw [← hl]
-  obtain ⟨pf, hlin, hq⟩ := search_sound (sem fl cfg) q _ _ _ _ _ _ _ (by simp [NodupKeys]) hs
+  unfold linearize linearizeP at hl
+  obtain ⟨⟨sf', pf⟩, hsp, hsf⟩ := Option.map_eq_some_iff.mp hl
+  simp only at hsf
+  subst hsf
+  have hs : LinCore.search (sem fl cfg) q h.fuel {} (init fl) [] h = (some (sf', pf), (LinCore.search (sem fl cfg) q h.fuel {} (init fl) [] h).2) := by
+    rw [← hsp]
+  obtain ⟨hlin, hq⟩ := search_sound (sem fl cfg) q _ _ _ _ _ _ _ _ (by simp [NodupKeys]) hs
   have := lin_acc hlin (by simp [NodupKeys]) (init_acc fl)
   refine ⟨pf, ?_, hq⟩
   simpa [received, handedBack, accepted, completed, opsOf] using this
